@@ -133,6 +133,22 @@ func runC06(c *eng.Ctx) {
 		c.Expect("MAX-datsize", 3)
 	}
 
+	// ---------------------------------------------------------------- (1c) the sorted index lists every live needle
+	// readNeedleMap (the .idx -> .ecx step) drops a key only for an entry without position or with the tombstone size;
+	// an empty blob (size 0) is live and must stay readable through the EC read path
+	if outer := c.NeedFunc("weed/storage/erasure_coding", "readNeedleMap"); outer != nil {
+		visit := closureWith(outer, eng.PlainCallTo("needle_map.MemDb).Delete"))
+		if visit == nil {
+			c.Undecided("GUARD-live-entries", eng.FuncName(outer), outer.Pos(), "the index visitor calling MemDb.Delete was not found")
+		} else {
+			c.Touch(visit)
+			noPos := eng.BoolCall(true, "types.Offset).IsZero")
+			tomb := eng.Cmp(func(v ssa.Value) bool { return eng.IsParamLike(v, "size") }, func(v ssa.Value) bool { k, ok := eng.ConstInt(v); return ok && k == -1 }, token.EQL)
+			c.Guard("GUARD-live-entries", "drop-only-tombstones", visit, eng.Entry(visit), eng.Find(visit, eng.PlainCallTo("needle_map.MemDb).Delete")),
+				eng.MergeEdges(eng.PassEdges(visit, noPos), eng.PassEdges(visit, tomb)), "a key is dropped from the sorted index only for an entry with no position or the tombstone size (an empty blob stays)")
+		}
+	}
+
 	// ---------------------------------------------------------------- (2) SIB-rowboundary
 	// site -> does a file of exactly k*DataShardsCount*large bytes count its last row as a large row?
 	mentionsLarge := func(v ssa.Value, params ...string) bool {
